@@ -1212,7 +1212,7 @@ func normSpace(s string) string { return strings.Join(strings.Fields(s), " ") }
 func noSpace(s string) string   { return strings.Join(strings.Fields(s), "") }
 
 func (ex *Exec) nodeText(n ast.Node) string {
-	return ex.prog.nodeSource(n)
+	return ex.withOriginalNames(n, func() string { return ex.prog.nodeSource(n) })
 }
 
 func (ex *Exec) execFor(s *ast.ForStmt) {
